@@ -63,7 +63,7 @@ impl TryFrom<&ctehexml::CtehexmlData> for Model {
         let cons = cons_from_bdl(bdl, &id_maps)?;
         let spaces = spaces_from_bdl(bdl, &id_maps)?;
         let walls = walls_from_bdl(bdl, &id_maps)?;
-        let (windows, shades) = windows_and_shades_from_bdl(bdl, &walls, &id_maps);
+        let (windows, shades) = windows_and_shades_from_bdl(bdl, &walls, &id_maps)?;
         let thermal_bridges = thermal_bridges_from_bdl(bdl);
 
         // Completa metadatos desde ctehexml y el bdl
@@ -170,8 +170,26 @@ fn spaces_from_bdl(bdl: &Data, id_maps: &IdMaps) -> Result<Vec<Space>, Error> {
 ///
 /// El polígono 3D del opaco se obtiene a partir de los datos de opaco y del espacio
 /// Para cada nivel, primero se gira el azimuth y luego se desplaza x, y, z
-fn wall_geometry(wall: &hulc::bdl::Wall, bdl: &Data) -> WallGeom {
-    let space = bdl.spaces.iter().find(|s| s.name == wall.space).unwrap();
+fn wall_geometry(wall: &hulc::bdl::Wall, bdl: &Data) -> Result<WallGeom, Error> {
+    let space = bdl
+        .spaces
+        .iter()
+        .find(|s| s.name == wall.space)
+        .ok_or_else(|| {
+            format_err!(
+                "Espacio {} del opaco {} no encontrado",
+                wall.space,
+                wall.name
+            )
+        })?;
+    let unknown_vertex = |loc: &str| {
+        format_err!(
+            "Vértice {} desconocido en el polígono del espacio {} para el opaco {}",
+            loc,
+            space.name,
+            wall.name
+        )
+    };
     let space_polygon = &space.polygon;
     let global_deviation = global_deviation_from_north(bdl);
 
@@ -184,7 +202,10 @@ fn wall_geometry(wall: &hulc::bdl::Wall, bdl: &Data) -> WallGeom {
         * match wall.location.as_deref() {
             // 1. Casos definidos por vértice
             Some(loc) if loc != "TOP" && loc != "BOTTOM" => {
-                let [p1, _] = space.polygon.edge_vertices(loc).unwrap();
+                let [p1, _] = space
+                    .polygon
+                    .edge_vertices(loc)
+                    .ok_or_else(|| unknown_vertex(loc))?;
                 point![
                     p1.x + wall.x + space.x,
                     p1.y + wall.y + space.y,
@@ -238,7 +259,9 @@ fn wall_geometry(wall: &hulc::bdl::Wall, bdl: &Data) -> WallGeom {
             // Definimos el polígono con inicio en 0,0 y ancho y alto según vértices y espacio
             // La "position (x, y, z)" que define el origen de coordenadas del opaco será la del primer vértice
             // Pero se calcula fuera de esta función
-            let [p1, p2] = space_polygon.edge_vertices(vertex).unwrap();
+            let [p1, p2] = space_polygon
+                .edge_vertices(vertex)
+                .ok_or_else(|| unknown_vertex(vertex))?;
             let width = (p2 - p1).magnitude();
             let height = space.height;
             vec![
@@ -249,18 +272,18 @@ fn wall_geometry(wall: &hulc::bdl::Wall, bdl: &Data) -> WallGeom {
             ]
         }
         _ => {
-            panic!("Definición de polígono de opaco {} desconocida", wall.name)
+            bail!("Definición de polígono de opaco {} desconocida", wall.name)
         }
     };
 
-    WallGeom {
+    Ok(WallGeom {
         azimuth: fround2(orientation_bdl_to_52016(
             global_deviation + space.angle_with_building_north + wall.angle_with_space_north,
         )),
         tilt: fround2(wall.tilt),
         position: Some(position),
         polygon,
-    }
+    })
 }
 
 /// Construye muros de la envolvente a partir de datos BDL
@@ -279,7 +302,7 @@ fn walls_from_bdl(bdl: &Data, id_maps: &IdMaps) -> Result<Vec<Wall>, Error> {
                     _ => None,
                 },
                 bounds: wall.bounds.into(),
-                geometry: wall_geometry(wall, bdl),
+                geometry: wall_geometry(wall, bdl)?,
             })
         })
         .collect::<Result<Vec<Wall>, _>>()
@@ -299,14 +322,16 @@ fn windows_and_shades_from_bdl(
     bdl: &Data,
     walls: &[Wall],
     id_maps: &IdMaps,
-) -> (Vec<Window>, Vec<Shade>) {
+) -> Result<(Vec<Window>, Vec<Shade>), Error> {
     //TODO: falta por trasladar la definición de lamas (louvres)
     let mut windows = vec![];
     let mut shades = vec![];
 
     for win in &bdl.windows {
         let id = uuid_from_obj(win);
-        let wall = walls.iter().find(|w| w.name == win.wall).unwrap();
+        let wall = walls.iter().find(|w| w.name == win.wall).ok_or_else(|| {
+            format_err!("Opaco {} del hueco {} no encontrado", win.wall, win.name)
+        })?;
 
         // Definición del hueco
         let window = Window {
@@ -329,10 +354,12 @@ fn windows_and_shades_from_bdl(
 
         // Definición de aleros
         if win.overhang.is_some() || win.left_fin.is_some() || win.right_fin.is_some() {
-            let wall2world = wall
-                .geometry
-                .to_global_coords_matrix()
-                .expect("El opaco debe tener definición geométrica completa");
+            let wall2world = wall.geometry.to_global_coords_matrix().ok_or_else(|| {
+                format_err!(
+                    "El opaco {} debe tener definición geométrica completa",
+                    wall.name
+                )
+            })?;
 
             // Alero sobre el hueco
             if let Some(overhang) = &win.overhang {
@@ -406,10 +433,10 @@ fn windows_and_shades_from_bdl(
     }
 
     // Añade sombras independientes
-    let othershades = shades_from_bdl(bdl);
+    let othershades = shades_from_bdl(bdl)?;
     shades.extend_from_slice(&othershades);
 
-    (windows, shades)
+    Ok((windows, shades))
 }
 
 /// Construye puentes térmicos de la envolvente a partir de datos BDL
@@ -452,100 +479,103 @@ fn thermal_bridges_from_bdl(bdl: &Data) -> Vec<ThermalBridge> {
 /// - por vértices
 /// Ver BDL Topics p.158
 /// Convertimos todos los casos a geometría como la de los muros: position + tilt + azimuth + Pol2D
-fn shades_from_bdl(bdl: &Data) -> Vec<Shade> {
+fn shades_from_bdl(bdl: &Data) -> Result<Vec<Shade>, Error> {
     bdl.shadings
         .iter()
-        .filter_map(|sh| {
-            let id = uuid_from_obj(sh);
-            let name = sh.name.clone();
-            let global_deviation = global_deviation_from_north(bdl);
-            let (position, tilt, azimuth, polygon) = if let Some(geom) = sh.geometry.as_ref() {
-                // 1. Sombras definidas por posición, ancho y alto
-                // Sombras de área nula
-                if geom.height.abs() < 1e-3 && geom.height.abs() < 1e-3 {
-                    return None;
-                };
-                // El origen simplemente se traslada la desviación global (en sentido inverso a los ángulos en coordenadas (X,-Y))
-                let position = Some(
-                    Rotation3::from_axis_angle(&Vector3::z_axis(), -global_deviation.to_radians())
-                        * point![geom.x, geom.y, geom.z],
-                );
-                // El azimuth acumula la orientación de la sombra y la desviación del norte (tienen el mismo criterio de giro)
-                let azimuth = fround2(orientation_bdl_to_52016(geom.azimuth + global_deviation));
-                let polygon = vec![
-                    point![0.0, 0.0],
-                    point![geom.width, 0.0],
-                    point![geom.width, geom.height],
-                    point![0.0, geom.height],
-                ];
-
-                (position, geom.tilt, azimuth, polygon)
-            } else if let Some(vertices) = sh.vertices.as_ref() {
-                // 2. Sombras definidas por vértices
-                // Aquí tenemos que tener cuidado con las operaciones de giros ya que tienen criterios de medición distintos
-                let normal = (vertices[1] - vertices[0]).cross(&(vertices[2] - vertices[1]));
-                // XXX: Esto se podría evitar iterando hasta encontrar dos segmentos que no sean colineales
-                // Basta con ir probando los siguientes tres puntos
-                // https://community.khronos.org/t/how-to-calculate-polygon-normal/49265/3
-                assert!(
-                    normal.magnitude() > 10.0 * f32::EPSILON,
-                    "Polígono con puntos colineales"
-                );
-                let tilt = Vector3::z_axis().angle(&normal);
-                // Azimuth del elemento de sombra (¡Atención! Criterio EN S=0, E=+90, W=-90)
-                let shade_azimuth = if (tilt % std::f32::consts::PI).abs() > (10.0 * f32::EPSILON) {
-                    // No es una superficie horizontal y calculamos el azimuth (con el Sur) como el ángulo de -Y y la proyección horizontal de la normal
-                    Rotation2::rotation_between(&-Vector3::<f32>::y_axis().xy(), &normal.xy())
-                        .angle()
-                } else {
-                    // Es una superficie horizontal y el azimuth (con el Sur) se calcula como si estuviese vertical la superficie -> -Y -> +Z
-                    // XXX: Esto no lo tengo claro...
-                    Vector3::z_axis().angle(&normal)
-                };
-
-                // La desviación global gira en sentido negativo el origen (sentido horario)
-                let v0 = vertices[0];
-                let position = Some(
-                    Rotation3::from_axis_angle(&Vector3::z_axis(), -global_deviation.to_radians())
-                        * v0,
-                );
-
-                // El giro global produce un giro en sentido negativo (sentido horario) frente al azimuth de la sombra (antihorario)
-                let azimuth = fround2(normalize(
-                    shade_azimuth.to_degrees() - global_deviation,
-                    -180.0,
-                    180.0,
-                ));
-
-                // Trasladamos al primer vértice y luego deshacemos la inclinación / tilt (giro en x) y luego el azimut de la sombra (giro eje z)
-                // El azimuth derivado de la desviación global la transmitimos en el valor final de azimuth y la hemos incorporado en la posición
-                // así que no debemos descontarla aquí de la geometría de la sombra
-                let transform = Rotation3::from_axis_angle(&Vector3::x_axis(), -tilt)
-                    * Rotation3::from_axis_angle(&Vector3::z_axis(), -shade_azimuth)
-                    * Translation3::from(Point3::origin() - v0);
-                let polygon = vertices.iter().map(|p| (transform * p).xy()).collect();
-                (
-                    position,
-                    normalize(tilt.to_degrees(), 0.0, 360.0),
-                    azimuth,
-                    polygon,
-                )
-            } else {
-                panic!("Definición inesperada de elemento de sombra");
-            };
-
-            Some(Shade {
-                id,
-                name,
-                geometry: WallGeom {
-                    tilt,
-                    azimuth,
-                    position,
-                    polygon,
-                },
-            })
-        })
+        .filter_map(|sh| shade_from_bdl(sh, bdl).transpose())
         .collect()
+}
+
+/// Construye una sombra a partir de su definición BDL (None si no tiene superficie)
+fn shade_from_bdl(sh: &hulc::bdl::Shading, bdl: &Data) -> Result<Option<Shade>, Error> {
+    let id = uuid_from_obj(sh);
+    let name = sh.name.clone();
+    let global_deviation = global_deviation_from_north(bdl);
+    let (position, tilt, azimuth, polygon) = if let Some(geom) = sh.geometry.as_ref() {
+        // 1. Sombras definidas por posición, ancho y alto
+        // Sombras de área nula
+        if geom.height.abs() < 1e-3 && geom.height.abs() < 1e-3 {
+            return Ok(None);
+        };
+        // El origen simplemente se traslada la desviación global (en sentido inverso a los ángulos en coordenadas (X,-Y))
+        let position = Some(
+            Rotation3::from_axis_angle(&Vector3::z_axis(), -global_deviation.to_radians())
+                * point![geom.x, geom.y, geom.z],
+        );
+        // El azimuth acumula la orientación de la sombra y la desviación del norte (tienen el mismo criterio de giro)
+        let azimuth = fround2(orientation_bdl_to_52016(geom.azimuth + global_deviation));
+        let polygon = vec![
+            point![0.0, 0.0],
+            point![geom.width, 0.0],
+            point![geom.width, geom.height],
+            point![0.0, geom.height],
+        ];
+
+        (position, geom.tilt, azimuth, polygon)
+    } else if let Some(vertices) = sh.vertices.as_ref() {
+        // 2. Sombras definidas por vértices
+        // Aquí tenemos que tener cuidado con las operaciones de giros ya que tienen criterios de medición distintos
+        if vertices.len() < 3 {
+            bail!("Sombra {} definida con menos de tres vértices", name);
+        }
+        let normal = (vertices[1] - vertices[0]).cross(&(vertices[2] - vertices[1]));
+        // XXX: Esto se podría evitar iterando hasta encontrar dos segmentos que no sean colineales
+        // Basta con ir probando los siguientes tres puntos
+        // https://community.khronos.org/t/how-to-calculate-polygon-normal/49265/3
+        if normal.magnitude() <= 10.0 * f32::EPSILON {
+            bail!("Polígono con puntos colineales en la sombra {}", name);
+        }
+        let tilt = Vector3::z_axis().angle(&normal);
+        // Azimuth del elemento de sombra (¡Atención! Criterio EN S=0, E=+90, W=-90)
+        let shade_azimuth = if (tilt % std::f32::consts::PI).abs() > (10.0 * f32::EPSILON) {
+            // No es una superficie horizontal y calculamos el azimuth (con el Sur) como el ángulo de -Y y la proyección horizontal de la normal
+            Rotation2::rotation_between(&-Vector3::<f32>::y_axis().xy(), &normal.xy()).angle()
+        } else {
+            // Es una superficie horizontal y el azimuth (con el Sur) se calcula como si estuviese vertical la superficie -> -Y -> +Z
+            // XXX: Esto no lo tengo claro...
+            Vector3::z_axis().angle(&normal)
+        };
+
+        // La desviación global gira en sentido negativo el origen (sentido horario)
+        let v0 = vertices[0];
+        let position = Some(
+            Rotation3::from_axis_angle(&Vector3::z_axis(), -global_deviation.to_radians()) * v0,
+        );
+
+        // El giro global produce un giro en sentido negativo (sentido horario) frente al azimuth de la sombra (antihorario)
+        let azimuth = fround2(normalize(
+            shade_azimuth.to_degrees() - global_deviation,
+            -180.0,
+            180.0,
+        ));
+
+        // Trasladamos al primer vértice y luego deshacemos la inclinación / tilt (giro en x) y luego el azimut de la sombra (giro eje z)
+        // El azimuth derivado de la desviación global la transmitimos en el valor final de azimuth y la hemos incorporado en la posición
+        // así que no debemos descontarla aquí de la geometría de la sombra
+        let transform = Rotation3::from_axis_angle(&Vector3::x_axis(), -tilt)
+            * Rotation3::from_axis_angle(&Vector3::z_axis(), -shade_azimuth)
+            * Translation3::from(Point3::origin() - v0);
+        let polygon = vertices.iter().map(|p| (transform * p).xy()).collect();
+        (
+            position,
+            normalize(tilt.to_degrees(), 0.0, 360.0),
+            azimuth,
+            polygon,
+        )
+    } else {
+        bail!("Definición inesperada de elemento de sombra {}", name);
+    };
+
+    Ok(Some(Shade {
+        id,
+        name,
+        geometry: WallGeom {
+            tilt,
+            azimuth,
+            position,
+            polygon,
+        },
+    }))
 }
 
 /// Construcciones de muros y huecos y materiales a partir de datos BDL
@@ -734,10 +764,7 @@ fn schedules_from_bdl(bdl: &Data, id_maps: &IdMaps) -> Result<SchedulesDb, Error
             bdl::Schedule::Week(sch) => {
                 let id = id_maps.schedule_week_id(&sch.name)?;
                 let values = match sch.days.len() {
-                    1 => vec![(
-                        id_maps.schedule_day_id(sch.days.first().unwrap()).unwrap(),
-                        7,
-                    )],
+                    1 => vec![(id_maps.schedule_day_id(&sch.days[0])?, 7)],
                     7 => {
                         let mut res = vec![];
                         let mut current_day_name = sch.days.first().unwrap();
@@ -777,20 +804,31 @@ fn schedules_from_bdl(bdl: &Data, id_maps: &IdMaps) -> Result<SchedulesDb, Error
                             .map(|(day, month)| day_of_year(*day, *month)),
                     )
                     .collect();
-                let day_count = end_day.windows(2).map(|t| t[1] - t[0]);
+                let day_count = end_day
+                    .windows(2)
+                    .map(|t| {
+                        t[1].checked_sub(t[0]).ok_or_else(|| {
+                            format_err!("Horario anual {} con fechas no crecientes", sch.name)
+                        })
+                    })
+                    .collect::<Result<Vec<u32>, _>>()?;
 
-                assert!(
-                    day_count.len() == sch.weeks.len()
-                        && day_count.len() == sch.months.len()
-                        && day_count.len() == sch.days.len()
-                );
+                if !(day_count.len() == sch.weeks.len()
+                    && day_count.len() == sch.months.len()
+                    && day_count.len() == sch.days.len())
+                {
+                    bail!(
+                        "Horario anual {} con distinto número de meses, días y horarios semanales",
+                        sch.name
+                    );
+                }
 
-                let values = sch
+                let week_ids = sch
                     .weeks
                     .iter()
-                    .map(|name| id_maps.schedule_week_id(name).unwrap())
-                    .zip(day_count.into_iter())
-                    .collect();
+                    .map(|name| id_maps.schedule_week_id(name))
+                    .collect::<Result<Vec<_>, _>>()?;
+                let values = week_ids.into_iter().zip(day_count.into_iter()).collect();
 
                 year.push(Schedule {
                     id,
